@@ -10,6 +10,15 @@ TRUST = ("TLC 1.8 and the TLA+ semantics; harness/absmap.py (gamma builds real o
          "alpha reads public props/paths/errors); the bounded universes stated in the evidence file")
 
 CHECKS = {
+ "C16": dict(
+    text="TLC checks on spec/MC_Custom.tla, for every tree of the universe and every single wrapped position (and all "
+         "positions at once), that the specification's forwarding semantics makes errors, generation and substitution "
+         "coincide with the plain tree. Both trees are built on the real code, the wrapped one with a CustomSchema "
+         "subclass registered through register_type, and compared on validation errors (kind, path, reported value, "
+         "message), fake() under the four constant tapes, repr and substitute(); spec/Trace_Custom.tla decides the "
+         "recorded comparisons.",
+    design="7 C16", technique="TLA+ forwarding semantics + TLC over (tree, wrapped positions); plain vs wrapped real "
+                              "trees compared, events trace-validated by TLC"),
  "C06": dict(
     text="TLC checks on spec/MC_Repr.tla that, for every scalar schema reachable by <=2 (quick) / <=3 (thorough) DSL "
          "calls, the container universe (nesting <=2 plus deeper extras, keys of six kinds) and results of + and "
